@@ -34,6 +34,8 @@ class Target:
         self.a = A(c["ta"])
         self.H = gen.spd_from(c["tG"], 0.5)
         self.q = c["tq"]
+        # un-normalised target: a constant added to the log-density (posteriors with many data have log-densities of -10^3 ... -10^4)
+        self.shift = float(c.get("tshift", 0.0))
         self.calls = []
         self.bad = bad  # (w, threshold, value): logd = value where w.z > threshold
 
@@ -42,7 +44,7 @@ class Target:
         if self.bad is not None and float(self.bad[0] @ z) > self.bad[1]:
             return self.bad[2]
         r = z - self.a
-        return float(-0.5 * r @ self.H @ r - self.q * np.sum(r ** 4))
+        return float(-0.5 * r @ self.H @ r - self.q * np.sum(r ** 4)) + self.shift
 
     def g(self, z):
         z = np.asarray(z, dtype=float).reshape(-1)
@@ -227,7 +229,7 @@ def mh_cases(draw, tier="quick", samplers=("MH", "PCN", "MALA")):
          "u_mode": draw(st.sampled_from(["above", "below", "generated"])), "delta": draw(st.sampled_from([1e-9, 1e-6, 1e-3, 1e-1])),
          "u": draw(st.floats(1e-6, 1 - 1e-6)), "bad_value": draw(st.sampled_from(["nan", "-inf"])),
          "int_start": draw(st.sampled_from([False, False, False, True])), "bad_grad": draw(st.sampled_from(["finite", "nan"])),
-         "rng_arg": draw(st.booleans())}
+         "rng_arg": draw(st.booleans()), "tshift": draw(st.sampled_from([0.0, 0.0, -900.0, -5000.0, 400.0]))}
     if c["int_start"]:
         c["x"] = [float(round(v)) for v in c["x"]]
     if sampler == "PCN":
@@ -285,6 +287,8 @@ def prepare_subject(K, c, x):
 
 def tags_of(c):
     t = {"sampler": c["sampler"], "interface": c["interface"], "history": c["history"]}
+    if c["sampler"] != "PCN" and c.get("tshift"):
+        t["logd_shift"] = c["tshift"]
     if c["sampler"] == "MALA" and c["interface"] == "legacy":
         t["rng_arg"] = bool(c.get("rng_arg"))
     if c["sampler"] == "PCN":
